@@ -2,7 +2,7 @@ use nom::{
     bytes::complete::tag,
     character::complete::{char, i128},
     combinator::{map, opt},
-    multi::{fold_many0, many0},
+    multi::many0,
     sequence::{preceded, terminated},
     Parser,
 };
@@ -75,21 +75,60 @@ fn enumeral(input: Input<'_>) -> ParserResult<'_, EnumeralInput<'_>> {
     .parse(input)
 }
 
+/// Parses the enumerals of a root enumeration.
+/// See ITU-T X.680 (02/2021) 20.3: the identifier-only enumerals are assigned successive
+/// integers starting with `start_index`, excluding the numbers written explicitly.
 fn enumerals<'a>(
     start_index: usize,
 ) -> impl Parser<Input<'a>, Output = Vec<Enumeral>, Error = ErrorTree<'a>> {
-    fold_many0(
-        enumeral,
-        Vec::<Enumeral>::new,
-        move |mut acc, (name, index, _, comments)| {
-            acc.push(Enumeral {
+    map(many0(enumeral), move |items: Vec<EnumeralInput<'a>>| {
+        let explicit: Vec<i128> = items.iter().filter_map(|(_, index, _, _)| *index).collect();
+        let mut next = start_index as i128;
+        items
+            .into_iter()
+            .map(|(name, index, _, comments)| Enumeral {
                 name: name.into(),
                 description: comments.map(|c| c.into()),
-                index: index.unwrap_or((acc.len() + start_index) as i128),
-            });
-            acc
-        },
-    )
+                index: index.unwrap_or_else(|| {
+                    while explicit.contains(&next) {
+                        next += 1;
+                    }
+                    next += 1;
+                    next - 1
+                }),
+            })
+            .collect()
+    })
+}
+
+/// Parses the enumerals of an additional enumeration (after the extension marker).
+/// See ITU-T X.680 (02/2021) 20.6: an identifier-only enumeral is assigned the smallest
+/// number that is not used in the root enumeration and is greater than the numbers
+/// of all preceding additional enumerals.
+fn additional_enumerals<'a>(
+    root: &[Enumeral],
+) -> impl Parser<Input<'a>, Output = Vec<Enumeral>, Error = ErrorTree<'a>> {
+    let used_in_root: Vec<i128> = root.iter().map(|e| e.index).collect();
+    map(many0(enumeral), move |items: Vec<EnumeralInput<'a>>| {
+        let mut next = 0;
+        items
+            .into_iter()
+            .map(|(name, index, _, comments)| {
+                let index = index.unwrap_or_else(|| {
+                    while used_in_root.contains(&next) {
+                        next += 1;
+                    }
+                    next
+                });
+                next = next.max(index + 1);
+                Enumeral {
+                    name: name.into(),
+                    description: comments.map(|c| c.into()),
+                    index,
+                }
+            })
+            .collect()
+    })
 }
 
 fn enumerated_body(input: Input<'_>) -> ParserResult<'_, EnumeralBody> {
@@ -100,7 +139,7 @@ fn enumerated_body(input: Input<'_>) -> ParserResult<'_, EnumeralBody> {
             skip_ws_and_comments(opt(char(COMMA))),
         ))
         .parse(input)?;
-        let (input, ext_enumerals) = opt(enumerals(root_enumerals.len())).parse(input)?;
+        let (input, ext_enumerals) = opt(additional_enumerals(&root_enumerals)).parse(input)?;
         Ok((input, (root_enumerals, ext_marker, ext_enumerals)))
     })
     .parse(input)
